@@ -24,8 +24,8 @@ RULE = ("a case is a layout (rows, cols, overlap table, agents with encodings / 
 ASSUMPTIONS = [
     "the viewer has a position inside the grid and a view_range >= 0 or FULL (Grid.place and the "
     "view_range setter admit nothing else)",
-    "layouts are generated without blocking agents while Grid/Vis.v is the placeholder mask "
-    "(USE_BLOCKERS = False); the theorems hold for every visibility function",
+    "the executable models use C10's mask specification as visibility function (Grid/Vis.v); the "
+    "theorems hold for every visibility function",
 ]
 
 USE_BLOCKERS = True
